@@ -431,7 +431,7 @@ pub fn run(rep: &mut Report, tier: &str, seed: u64, shard: (u32, u32), replay: O
     }
     rep.extra.insert("enumerated_scripts".into(), json!(enumerated));
     let full = [E::T, E::X, E::R(0), E::F(0), E::R(1), E::F(1), E::ROld(0), E::FOld(1), E::ROld(1), E::ROther, E::AnnounceTimer, E::SyncTimer, E::DelayReq, E::AnnounceReceipt, E::Bmca, E::T, E::X, E::R(0), E::F(0)];
-    let n: u64 = if tier == "thorough" { 400_000 } else { 20_000 };
+    let n: u64 = if tier == "thorough" { 400_000 } else { 60_000 };
     let budget = Budget::new(n, if tier == "thorough" { 600.0 } else { 15.0 });
     let mut i = 0;
     while budget.left(i) {
